@@ -323,6 +323,25 @@ def gen_agg_program(rng):
             src = rng.choice(src_pool)
             sar = p["rels"][src]["arity"]
             fn = rng.choice(AGGS)
+            bin_rels = [r for r in range(base) if p["rels"][r]["arity"] == 2]
+            if fn in ("sum", "min", "max") and rng.chance(1, 2):   # (count yields usize: not usable as a column)
+                # the aggregation comes FIRST and binds a variable that the SECOND of two joined clauses repeats:
+                # `res(y, m) <-- agg m = max(x) in nums(x), a(y, z), b(z, m)` - a binder before a simple join (the join must not be reordered)
+                aargs, bound = [], []
+                for j in range(sar):
+                    if fn in ("sum", "min", "max") and not bound: aargs.append(("b", 20)); bound.append(20)
+                    elif rng.chance(1, 4): aargs.append(("k", rng.range(0, 3)))
+                    else: aargs.append("_")
+                # two input-only relations, so that the inputs control which of them is larger
+                p["rels"].append({"arity": 2}); p["rels"].append({"arity": 2})
+                a, b = len(p["rels"]) - 2, len(p["rels"]) - 1
+                body = [("agg", [21], fn, bound, src, aargs), ("cl", a, [("v", 0), ("v", 1)], []),
+                        ("cl", b, [("v", 1), ("v", 21)] if rng.chance(2, 3) else [("v", 21), ("v", 1)], [])]
+                p["rels"].append({"arity": 2})
+                out = len(p["rels"]) - 1
+                p["rules"].append({"heads": [(out, [("var", 0), ("var", 21)])], "body": body})
+                prev_out.append(out)
+                continue
             key = rng.choice([r for r in range(base) if p["rels"][r]["arity"] >= 1])
             kar = p["rels"][key]["arity"]
             kvars = list(range(kar))
@@ -421,3 +440,24 @@ def sp_input(rng, n=None):
 
 def nodup_input(rng, p, max_rows=8):
     return dedup_input(gen_input(rng, p, max_rows))
+
+
+def agg_first_joins(p):
+    """(a, b, swapped) for every rule `agg .., a(y, z), b(z, m) | b(m, z)` (aggregation first, then two joined clauses)"""
+    out = []
+    for ru in p["rules"]:
+        b = ru["body"]
+        if len(b) >= 3 and b[0][0] == "agg" and b[1][0] == "cl" and b[2][0] == "cl":
+            out.append((b[1][1], b[2][1], b[2][2][0] != ("v", 1)))
+    return out
+
+
+def skew_join_input(rng, inp, a, b, swapped):
+    """many distinct join keys in `a`, one or two rows in `b` (the run-time choice by len_estimate then prefers to iterate `b`)"""
+    inp = dict(inp)
+    if a == b: return inp
+    n = rng.range(5, 8)
+    inp[a] = [(rng.range(0, 4), z) for z in range(n)]
+    rows = [(rng.range(0, n - 1), rng.range(0, 6)) for _ in range(rng.range(1, 2))]
+    inp[b] = list(dict.fromkeys((m, z) if swapped else (z, m) for z, m in rows))
+    return inp
